@@ -11,3 +11,19 @@ def check_build_Q(ctx):
     from .qbasis_impl import analyse
     for rule, status, detail, w in analyse(ctx.repo, fn):
         ctx.ob(rule, key, status, detail, f"speckit/core.py:{w}" if w else where)
+
+
+def check_basis_finite(ctx, rule="R9-basis-finite-for-short-segments"):
+    """every entry of the detrend basis is a finite number also for the shortest segments (L = 1, 2, 3): a closed form that divides by a norm
+    vanishing for L <= order makes every statistic of such a segment NaN although the record is finite."""
+    key = "speckit/core.py::_build_Q"
+    fn = ctx.repo.get(key); ctx.analysed(key)
+    where = ctx.repo.where(key, fn)
+    from .qbasis_impl import finite_instance
+    for order in (1, 2):
+        for Lc in (1, 2, 3):
+            f_ = finite_instance(ctx.repo, Lc, order)
+            c = f"{key}[L={Lc},order={order}]"
+            if f_ is True: ctx.holds(rule, c, "QR factor / finite closed form", where)
+            elif f_ is None: ctx.unknown(rule, c, "basis not evaluable for this length", where)
+            else: ctx.violated(rule, c, f"non-finite entry ({f_}): XX, YY, XY, M2 of a segment of this length are NaN for every finite record", where)
